@@ -47,6 +47,7 @@ static void ref_exec(const char *cmd, ref_t *r)
 {
     char out[2100], c[2100]; size_t o = 0; int sp = 0;
     { long big = emu_big(cmd); if (big >= 0) { for (long i = 0; i < big && r->n < CONFIG_BUFF - 1; i++) r_put(r, "x", 1); return; } }
+    { long gap = emu_gap(cmd); if (gap >= 0) { r_put(r, gap ? "a b" : "ab", gap ? 3 : 2); return; } }
     emu_output(cmd, out, sizeof out);
     if (!out[0]) return;
     for (size_t i = 0; out[i]; i++) { if (isspace((unsigned char) out[i])) { if (!sp) c[o++] = ' '; sp = 1; } else { c[o++] = out[i]; sp = 0; } }
@@ -339,6 +340,28 @@ static void pd_case(uint64_t idx, void *ctx)
     mc_nontrivial();
     mc_outcome((uint64_t) d);
 }
+/* ------------------------------------------------------------------ command output with long runs of white space: every run becomes one blank, whatever its length */
+static const long GAPS[] = { 0, 1, 2, 3, 127, 128, 255, 256, 257, 258, 511, 512, 513, 514, 767, 768, 769, 1000, 5000, 19000 };
+#define NGAPS ((int) (sizeof GAPS / sizeof GAPS[0]))
+static void go_desc(uint64_t idx, void *ctx, char *b, size_t n) { (void) ctx; snprintf(b, n, idx % 2 ? "spifconf_shell_expand(\"[`gap %ld`]\") where the command prints a, %ld white-space characters, b" : "spifconf_shell_expand(\"[%%exec(gap %ld)]\") where the command prints a, %ld white-space characters, b", GAPS[idx / 2], GAPS[idx / 2]); }
+static void go_case(uint64_t idx, void *ctx)
+{
+    long N = GAPS[idx / 2]; (void) ctx;
+    char *in = malloc(CONFIG_BUFF); snprintf(in, CONFIG_BUFF, idx % 2 ? "[`gap %ld`]" : "[%%exec(gap %ld)]", N);
+    const char *shape = N <= 255 ? "white-space run of at most 255 characters" : "white-space run of 256 or more characters"; mc_set_shape(shape);
+    g_home = "/h";
+    static ref_t R; memset(&R, 0, sizeof(int) * 2); R.n = 0;
+    g_exec_emul = 1;
+    g_env_on = 1; int ok = ref_expand(in, &R); g_env_on = 0; R.out[R.n] = 0;
+    char *k1; char *r = expand_in(in, CONFIG_BUFF, 0xA5, &k1);
+    g_exec_emul = 0;
+    if (!r) FAIL("spifconf_shell_expand", "model:refused", shape, "returned NULL");
+    else if (ok && strcmp(r, R.out)) FAIL("spifconf_shell_expand", "model:value", shape, "result \"%.40s\" (%zu characters), expected \"%s\": a run of white space in a command's output is one blank", r, strlen(r), R.out);
+    uint64_t rl = r ? strlen(r) : 0;
+    free(k1); free(in);
+    mc_nontrivial();
+    mc_outcome(rl);
+}
 /* ------------------------------------------------------------------ %dirscan() lists what stat() calls a regular file, whatever kind of directory entry leads to it */
 static const char *DK_NAME[6] = { "reg", "sub", "lnk", "lnkdir", "dangling", "fifo" };
 static void dk_desc(uint64_t idx, void *ctx, char *b, size_t n) { (void) ctx; size_t k = (size_t) snprintf(b, n, "%%dirscan() of a directory holding {"); for (int i = 0; i < 6; i++) if (idx >> i & 1) k += (size_t) snprintf(b + k, n - k, " %s", DK_NAME[i]); snprintf(b + k, n - k, " } (regular file, subdirectory, symbolic link to a regular file, to a directory, to nothing, named pipe)"); }
@@ -390,6 +413,7 @@ int main(int argc, char **argv)
         mc_e2_level("limit", 1, (uint64_t) NLFRAG * 14 * 2, l_case, l_desc, NULL);
         mc_e2_level("paren_depth", 513, (uint64_t) NPD * 2, pd_case, pd_desc, NULL);
         mc_e2_level("dirscan_entry_kinds", 6, 64, dk_case, dk_desc, NULL);
+        mc_e2_level("command_output_gaps", 19000, (uint64_t) NGAPS * 2, go_case, go_desc, NULL);
         mc_e2_level("long_command_output", 140000, (uint64_t) NBIGOUT * 2, bo_case, bo_desc, NULL);
         spifconf_free_subsystem();
     }
